@@ -15,6 +15,7 @@ import ExponaxModel.Model.IC
 import ExponaxModel.Generated.Etdrk
 import ExponaxModel.Generated.Convert
 import ExponaxModel.Generated.Misc
+import ExponaxModel.Generated.Steppers
 /-
 Line-protocol driver: one request per line, one reply per line.
 Tokens: decimal integers; IEEE doubles as `x` + 16 hex digits (bit pattern).
@@ -231,6 +232,36 @@ def dispatch (op : String) : P String := do
       | 3 => Gen.Etdrk.E3step E Eh (cf 0) (cf 1) (cf 2) (cf 3) (cf 4) N u
       | _ => Gen.Etdrk.E4step E Eh (cf 0) (cf 1) (cf 2) (cf 3) (cf 4) (cf 5) N u
     return outCF (out.toArray n).toList
+  | "gensym" =>
+    -- name D N s nargs (tag …)*  -> regenerated `_build_linear_operator` of the class at every stored mode
+    --   tags: s re im | p (M × re im: one value per stored mode) | v n (re im)^n | m r c (re im)^(r·c) | b 0/1 | n k
+    let name ← nextTok
+    let D ← pNat; let N ← pNat; let sc ← pRe
+    let c : Nonlin.Cfg CF := { D := D, N := N, s := sc, fp := 0, fq := 0 }
+    let M := numModes D N
+    let nargs ← pNat
+    let mut args : Array (Nat → Gen.Steppers.Arg CF) := #[]
+    for _ in [0:nargs] do
+      let tag ← nextTok
+      match tag with
+      | "s" => let x ← pCF; args := args.push (fun _ => .s x)
+      | "p" => let xs ← pMany M pCF; args := args.push (fun h => .s (xs.getD h ⟨0.0, 0.0⟩))
+      | "v" => let n ← pNat; let xs ← pMany n pCF; args := args.push (fun _ => .v xs.toList)
+      | "m" =>
+        let r ← pNat; let cc ← pNat
+        let xs ← pMany (r * cc) pCF
+        let rows := (List.range r).map (fun i => (List.range cc).map (fun j => xs.getD (i * cc + j) ⟨0.0, 0.0⟩))
+        args := args.push (fun _ => .m rows)
+      | "b" => let k ← pNat; args := args.push (fun _ => .b (k != 0))
+      | "n" => let k ← pNat; args := args.push (fun _ => .n k)
+      | t => throw s!"bad gensym tag {t}"
+    let mut out : Array CF := #[]
+    for h in [0:M] do
+      let κ := (List.range D).map (fun d => Nonlin.deriv c d h)
+      match Gen.Steppers.eval_linear_operator name κ (args.toList.map (fun f => f h)) with
+      | some vals => out := out ++ vals.toArray
+      | none => throw s!"gensym: no regenerated operator for {name} with these arguments"
+    return outCF out.toList
   | "sym_poly" =>
     -- D N s nterms (c α..)*  -> symbol at every stored mode
     let D ← pNat; let N ← pNat; let sc ← pRe
